@@ -7,7 +7,10 @@
 * the two settings schemas of `_validate_init_settings` / `_validate_add_key_settings`, the `DEFAULT_*_NAME` constants;
 * `initStages` — the order in which `Repository.init` validates, builds the config, instantiates adapters, makes the key,
   encrypts its private part and UPLOADS the config (read off the statement order of the function body);
-* `addKeyUploads` — whether add_key/_add_key touch the backend with a mutating call.
+* `addKeyUploads` — whether add_key/_add_key touch the backend with a mutating call;
+* `keyWriteInit`, `keyWriteAddKey` — how the statement under `if key_output_path is not None:` opens the key file
+  (truncating / via rename / in place / appending / exclusive; helpers of `Repository` are followed), and
+  `keyWriteAfterChecks` — that statement comes after the last statement that can refuse the settings.
 
 Anything not recognised raises → extract.py records the failure and emits `settingsSectionOk := false` only, so every
 dependent definition in Settings.lean stops compiling (reported as a broken obligation, never assumed).
@@ -65,6 +68,15 @@ structure AdapterRow where
 inductive InitStage where
   | validate | makeConfig | instantiateConfig | passwordCheck | makeKey | instantiateKey | encryptPrivate | uploadConfig
   deriving DecidableEq, Repr
+
+/-- how the statement that writes the key file (`init`, `_add_key`: `-o / --key-output-file`) opens its output path -/
+inductive WriteMode where
+  | truncate      -- `Path.write_bytes`, `open(path, 'wb')`, `os.open(… | O_TRUNC)`: earlier content is discarded
+  | replace       -- written to a temporary file which is then renamed onto the path
+  | inPlace       -- opened for writing without truncation: bytes beyond the new data survive
+  | append        -- `'ab'` / `O_APPEND`
+  | exclusive     -- `'xb'` / `O_EXCL`: an existing file is refused
+  deriving DecidableEq, Repr, Inhabited
 '''
 
 ABSTRACT = {'CipherAdapter', 'KDFAdapter', 'MACAdapter', 'HashAdapter', 'ChunkerAdapter'}
@@ -353,6 +365,18 @@ def section(ctx):
         out.append('def settingsRecognised : Bool := true')
     for ln in out:
         ctx.emit(ln)
+    # the key-file statement has its own fallback: not recognising it must not take the adapter tables down with it
+    try:
+        kw = key_write_facts(ctx)
+    except Exception as e:  # noqa: BLE001
+        ctx.notes['settings_keywrite'] = f'not recognised: {e!r}'
+        for ln in KEYWRITE_FALLBACK:
+            ctx.emit(ln)
+    else:
+        ctx.notes['settings_keywrite'] = f"init: {kw['init']}, _add_key: {kw['add_key']}, after the last check: {kw['after_checks']}"
+        ctx.emit(f"def keyWriteInit : WriteMode := .{kw['init']}")
+        ctx.emit(f"def keyWriteAddKey : WriteMode := .{kw['add_key']}")
+        ctx.emit(f"def keyWriteAfterChecks : Bool := {'true' if kw['after_checks'] else 'false'}")
 
 
 def body(ctx, emit):
@@ -422,3 +446,118 @@ def body(ctx, emit):
     emit('def initStages : List (InitStage × Bool) := [' + ', '.join(f'(.{k}, {"true" if e else "false"})' for k, e in stages) + ']')
     emit('def kindChecks : List (String × String) := [' + ', '.join(f'({lean_str(a)}, {lean_str(b)})' for a, b in kind_chk) + ']')
     emit(f'def addKeyUploads : Bool := {"true" if uploads else "false"}')
+
+
+# ------------------------------------------------------------------ the key-file statement of init / _add_key
+KEYWRITE_FALLBACK = ['opaque keyWriteInit : WriteMode', 'opaque keyWriteAddKey : WriteMode', 'opaque keyWriteAfterChecks : Bool']
+OPEN_FLAGS = {'O_WRONLY', 'O_RDWR', 'O_CREAT', 'O_TRUNC', 'O_APPEND', 'O_EXCL', 'O_CLOEXEC', 'O_NOFOLLOW', 'O_BINARY', 'O_SYNC', 'O_DSYNC', 'O_NOCTTY'}
+
+
+def _flag_names(node):
+    """`os.O_WRONLY | os.O_CREAT | …` → set of names"""
+    if isinstance(node, ast.BinOp) and isinstance(node.op, ast.BitOr):
+        return _flag_names(node.left) | _flag_names(node.right)
+    s = ast.unparse(node)
+    nm = s[len('os.'):] if s.startswith('os.') else s
+    if nm not in OPEN_FLAGS:
+        raise NotRecognised(f'open flag {s}')
+    return {nm}
+
+
+def _mode_of_string(mode, on_descriptor=False):
+    if not isinstance(mode, str):
+        raise NotRecognised(f'open mode {mode!r}')
+    if 'x' in mode:
+        return 'exclusive'
+    if 'a' in mode:
+        return 'append'
+    if 'w' in mode:
+        return None if on_descriptor else 'truncate'      # open(fd, 'wb') does not truncate: the descriptor decides
+    if '+' in mode:
+        return None if on_descriptor else 'inPlace'
+    raise NotRecognised(f'key file opened with mode {mode!r}')
+
+
+def _open_mode_arg(call, pos):
+    for kw in call.keywords:
+        if kw.arg == 'mode':
+            return ast.literal_eval(kw.value)
+    if len(call.args) > pos:
+        return ast.literal_eval(call.args[pos])
+    return 'r'
+
+
+def write_mode_of(stmts, cls, depth=0):
+    """How a list of statements that stores the key leaves the file at the output path (see `WriteMode`).  Looks at every
+    call below the statements: rename onto the path, os.open flags, open()/Path.open() mode strings, truncate calls,
+    Path.write_bytes / write_text; calls of other methods of the class / functions of the module are followed (two levels)."""
+    calls = [n for st in stmts for n in ast.walk(st) if isinstance(n, ast.Call)]
+    names = [ast.unparse(c.func) for c in calls]
+    if any(n in ('os.replace', 'os.rename', 'shutil.move') or n.endswith('.replace') and len(c.args) == 1 and not c.keywords or n.endswith('.rename')
+           for n, c in zip(names, calls)):
+        return 'replace'
+    truncates = any(n == 'os.ftruncate' or n == 'os.truncate' or n.endswith('.truncate') for n in names)
+    found = []
+    for n, c in zip(names, calls):
+        if n == 'os.open':
+            if len(c.args) < 2:
+                raise NotRecognised('os.open without flags')
+            fl = _flag_names(c.args[1])
+            if not (fl & {'O_WRONLY', 'O_RDWR'}):
+                raise NotRecognised('key file descriptor is not opened for writing')
+            found.append('exclusive' if 'O_EXCL' in fl else 'append' if 'O_APPEND' in fl else 'truncate' if 'O_TRUNC' in fl else 'inPlace')
+        elif n in ('open', 'io.open', 'os.fdopen'):
+            m = _mode_of_string(_open_mode_arg(c, 1), on_descriptor=(n == 'os.fdopen' or 'os.open' in names))
+            if m is not None:
+                found.append(m)
+        elif n.endswith('.open') and n != 'os.open':
+            found.append(_mode_of_string(_open_mode_arg(c, 0)))
+        elif n.endswith('.write_bytes') or n.endswith('.write_text'):
+            found.append('truncate')
+    if not found and depth < 2 and cls is not None:
+        # a helper: another method of the class (`self.name(…)`) or a function of the module (`name(…)`)
+        defs = {'self.' + st.name: st for st in cls.body if isinstance(st, (ast.FunctionDef, ast.AsyncFunctionDef))}
+        defs.update({st.name: st for st in getattr(cls, 'module_body', []) if isinstance(st, (ast.FunctionDef, ast.AsyncFunctionDef))})
+        helpers = [n for n in names if n in defs and n not in ('self.serialize', 'self.display_status')]
+        found = [write_mode_of(defs[n].body, cls, depth + 1) for n in helpers]
+    found = sorted(set(found))
+    if len(found) != 1:
+        raise NotRecognised(f'key-file statement: expected one way of opening the file, found {found}')
+    mode = found[0]
+    if mode == 'inPlace' and truncates:
+        mode = 'truncate'
+    return mode
+
+
+def key_write_stmt(func):
+    """the `if key_output_path is not None:` statement of `func` and the statements of the function body before it"""
+    hits = [n for n in ast.walk(func) if isinstance(n, ast.If) and ast.unparse(n.test) == 'key_output_path is not None']
+    if len(hits) != 1:
+        raise NotRecognised(f'{func.name}: {len(hits)} `if key_output_path is not None:` statements')
+    return hits[0]
+
+
+def _comes_after_checks(func, write_if):
+    """the key-file statement follows (in source order, same or enclosing block) the encryption of the private section — the
+    last statement of init / _add_key that depends on the settings and can raise"""
+    enc = [n for n in ast.walk(func) if isinstance(n, ast.Call) and ast.unparse(n.func) == 'props.encrypt']
+    mk = [n for n in ast.walk(func) if isinstance(n, ast.Call) and ast.unparse(n.func) in ('self._make_key', 'self._instantiate_key')]
+    if not enc or not mk:
+        raise NotRecognised(f'{func.name}: key construction calls not found')
+    last = max((n.end_lineno, n.end_col_offset) for n in enc + mk)
+    return (write_if.lineno, write_if.col_offset) > last
+
+
+def key_write_facts(ctx):
+    rtree = ast.parse((ctx.REPO / 'replicat' / 'repository.py').read_text())
+    cls = ctx.find_func(rtree, 'Repository')
+    init = ctx.find_func(rtree, 'Repository', 'init')
+    inner = ctx.find_func(rtree, 'Repository', '_add_key')
+    if cls is None or init is None or inner is None:
+        raise NotRecognised('Repository.init / _add_key not found')
+    cls.module_body = rtree.body
+    wi, wa = key_write_stmt(init), key_write_stmt(inner)
+    ctx.fp('repository.init.key_write', wi)
+    ctx.fp('repository._add_key.key_write', wa)
+    return {'init': write_mode_of(wi.body, cls), 'add_key': write_mode_of(wa.body, cls),
+            'after_checks': _comes_after_checks(init, wi) and _comes_after_checks(inner, wa)}
